@@ -502,7 +502,29 @@ class DiffCheck:
         if model_exe and impl_exe and cases:
             mout = run_cases(model_exe, cases, tmp, 'model', timeout=self.case_timeout)
             iout = run_cases(impl_exe, cases, tmp, 'impl', timeout=self.case_timeout, env=self.impl_env())
+            # infrastructure failures of the machine (thread / process / memory exhaustion, loader races) are not
+            # results: re-run those cases alone, serially; what still fails that way is excluded and counted
+            infra = re.compile(r'Resource temporarily unavailable|INITFAIL|Cannot allocate memory|cannot fork|'
+                               r'error while loading shared libraries|pthread_create failed|std::system_error')
+            self.infra_skipped = 0
+            for side, exe_, env_ in (('model', model_exe, None), ('impl', impl_exe, self.impl_env())):
+                outs = mout if side == 'model' else iout
+                bad = [k for k, o in enumerate(outs) if o and infra.search(o)]
+                for attempt in range(3):
+                    if not bad:
+                        break
+                    time.sleep(5 * (attempt + 1))
+                    redo = run_cases(exe_, [cases[k] for k in bad], tmp, side + '_infra%d' % attempt, nshards=1,
+                                     timeout=self.case_timeout, env=env_)
+                    for k, o in zip(bad, redo):
+                        outs[k] = o
+                    bad = [k for k in bad if outs[k] and infra.search(outs[k])]
+                for k in bad:
+                    mout[k] = iout[k] = 'INFRA-SKIPPED'
+                    self.infra_skipped += 1
             for c, m, i in zip(cases, mout, iout):
+                if m == 'INFRA-SKIPPED':
+                    continue
                 cm, ci = self.canon(m or ''), self.canon(i or '')
                 kc = self.known_class(c)
                 o = self.oracle(c, ci)
@@ -581,7 +603,7 @@ class DiffCheck:
             axioms_per_theorem=pr.get('assumptions', {}),
             evaluations=len(cases), distinct_nontrivial=len(nontriv), rule=self.rule,
             traces_validated_against_impl=len([1 for c, m, i in zip(cases, mout, iout) if self.canon(m or '') == self.canon(i or '')]),
-            disagreements=len(disagreements), oracle_failures=len(oracle_fail),
+            disagreements=len(disagreements), oracle_failures=len(oracle_fail), infrastructure_skipped=getattr(self, 'infra_skipped', 0),
             known_finding_cases={k: v[0] for k, v in known_seen.items()},
             input_distribution=hist, samples=samples or [dict(note='no cases ran')],
             notes=notes, partial=self.partial_note)
